@@ -39,6 +39,8 @@ vm_unit = VerusUnit('c07_costmodel', 'c07_costmodel', rlimit=30)
 rw = KaniUnit("c07_rate_wit", CORE, modules=[dict(file=CORE + "/src/model/cost/vehicle/vehicle_cost_rate.rs", src="c07_rate_wit.rs")], harnesses=[])
 rw.native_witnesses = ["c07_wit_combined_rate_applies_members_in_order"]
 rate = VerusUnit("c07_rate", "c07_rate", rlimit=30, paired_kani=(rw, []))
-UNITS = [cost_unit, vm_unit, rate, rw]
+ow = KaniUnit("c07_cost_ops_wit", CORE, modules=[dict(file=CORE + "/src/model/cost/cost_ops.rs", src="c07_cost_ops_wit.rs")], harnesses=[])
+ow.native_witnesses = ["c07_wit_cost_is_weight_times_rated_state_change"]
+UNITS = [cost_unit, vm_unit, rate, rw, ow]
 EXPLANATION = "contracts on the cost floor / clip functions (all f64), the cost model and the edge traversal split"
 NOT_DECIDED = "CostModel::new beyond two features"
